@@ -374,3 +374,105 @@ Proof. split; [repeat split; auto|vm_compute; reflexivity]. Qed.
 Example C07_search_term_example :
   get_search_term "!=~/^a/" = Ok (Some (mkterms true MRegex "*" "^a")) /\ get_search_term "a" = Ok None.
 Proof. vm_compute. split; reflexivity. Qed.
+
+(* ====================================================================== *)
+(* "Every reported path, fed back into a query on the same document in the
+   notation it was printed in, resolves to exactly the one node that matched":
+   the TEXT part (proofs: Proofs/ResolvePaths.v ResolveTools.v ResolveMain.v;
+   vocabulary: Model/PathBuild.v, explained in Properties/C02.v).
+
+   For every path the search reports (any options with --refnames off, expansion
+   on or off, any alias mode), for the place [h_loc h] it was reported for and
+   the node [n] the document holds there:
+     - the text search_for_paths built is [build_path sp (h_loc h)];
+     - str() leaves it unchanged, so it IS the printed text (C07_print_exact);
+     - the evaluator's required query on it yields exactly one result, the node n
+       (with its coordinates [pb_coords]).
+   Guards (each a listed finding, witnesses below):
+     [pb_safe sp d (h_loc h)]  the keys on the way are ones escape_path_section
+                               protects - finding F-C07-2 (unsafe_key_section);
+     [seq_plain d]             no sequence element carries an anchor: such an
+                               element is printed as [&anchor], which names every
+                               node with that anchor name - finding F-C07-4.
+   [lookup d (h_loc h) = Some n] says what n is; that the location of a report
+   reaches the matched node is C07_resolves_partial.  The evaluator's oracles and
+   parameters are universally quantified. *)
+From YP Require Import Eval C08Spec PathBuild ResolveEval ResolvePaths ResolveTools.
+
+Theorem C07_resolves_text_partial :
+  forall elit ere nstr vstr kw_handler creator
+         lit re_search (mt : mtable) (tm : terms) (sp : sep) (o : opts) (d : node) (res : list hit)
+         (h : hit) (n : node) (f : nat),
+    o_anchors o = false -> seq_plain d = true ->
+    search_doc lit re_search mt tm sp o d = Ok res -> In h res ->
+    lookup d (h_loc h) = Some n -> pb_safe sp d (h_loc h) = true ->
+    h_path h = build_path sp (h_loc h)
+    /\ path_str Auto (h_path h) = Ok (h_path h)
+    /\ exists p, prepare (S f) (h_path h) = Ok p
+                 /\ get_required elit ere nstr vstr kw_handler creator p d = ([pb_coords d (h_loc h) n], Done).
+Proof. exact paths_text_resolves. Qed.
+Print Assumptions C07_resolves_text_partial.
+
+(* the text alone, for every report whose keys are protected (no other guard on the keys) *)
+Theorem C07_reported_text_partial :
+  forall lit re_search (mt : mtable) (tm : terms) (sp : sep) (o : opts) (d : node) (res : list hit),
+    o_anchors o = false -> seq_plain d = true ->
+    search_doc lit re_search mt tm sp o d = Ok res ->
+    forall h, In h res -> okl sp (h_loc h) = true -> h_path h = build_path sp (h_loc h).
+Proof. exact reported_text. Qed.
+Print Assumptions C07_reported_text_partial.
+
+(* ---- non-vacuity: keys with every escapable character, nested sequences,
+   both notations, expansion ---- *)
+Definition C07_esc_key : string := "a\b.c/d(e)f[g]h^i$j%k l'm""n".
+Definition C07_doc_esc : node :=
+  NMap C07_i0 [ (C07_leaf C07_esc_key,
+                 NSeq C07_i0 [ C07_leaf "x";
+                               NSeq C07_i0 [ NMap C07_i0 [ (C07_leaf "p q", C07_leaf "hit") ] ] ]);
+                (C07_leaf "z", C07_leaf "hit") ].
+Definition C07_tm_hit : terms := mkterms false MEquals "*" "hit".
+Definition C07_re_eq : string -> string -> outcome reres := fun _ _ => Ok (RMatch false).
+Definition C07_kw0 (_ : bool) (_ : keyword) (_ : string) (_ : rval) (_ : ctx) : gen rval := gnil.
+Definition C07_cr0 (_ : list pseg) (_ : nat) (_ : rval) (_ : ctx) : gen rval := gnil.
+
+Example C07_resolves_text_nonvacuous :
+  seq_plain C07_doc_esc = true
+  /\ omap (map (fun h => (h_path h, h_loc h))) (search_doc C07_lit0 C07_re0 [] C07_tm_hit Slash C07_o_v C07_doc_esc)
+     = Ok [ ("/a\\b.c\/d\(e\)f\[g\]h\^i\$j\%k\ l\'m\""n[1][0]/p\ q",
+             [RKey (PStr C07_esc_key); RIdx 1; RIdx 0; RKey (PStr "p q")]);
+            ("/z", [RKey (PStr "z")]) ]
+  /\ pb_safe Slash C07_doc_esc [RKey (PStr C07_esc_key); RIdx 1; RIdx 0; RKey (PStr "p q")] = true
+  /\ pb_safe Dot C07_doc_esc [RKey (PStr C07_esc_key); RIdx 1; RIdx 0; RKey (PStr "p q")] = true
+  /\ lookup C07_doc_esc [RKey (PStr C07_esc_key); RIdx 1; RIdx 0; RKey (PStr "p q")] = Some (C07_leaf "hit")
+  /\ omap (map h_path) (search_doc C07_lit0 C07_re0 [] C07_tm_hit Dot C07_o_v C07_doc_esc)
+     = Ok [ "a\\b\.c/d\(e\)f\[g\]h\^i\$j\%k\ l\'m\""n[1][0].p\ q"; "z" ].
+Proof. vm_compute. repeat split; reflexivity. Qed.
+
+(* ---- the guards are needed ---- *)
+(* F-C07-2: {"a*": hit, "ab": x} - the reported text a* is re-read as a search and
+   selects both values;  F-C07-4: [&x hit, &x other] (a redefined anchor name) -
+   the element is printed as [&x], which selects both elements *)
+Definition C07_requery (sp : sep) (d : node) (t : string) : option (list N) :=
+  match prepare 5 t with
+  | Ok p => Some (map (fun x => match x with RCoords (RNode n) _ _ _ _ => node_oid n | _ => 999%N end)
+                      (fst (get_required C07_lit0 C07_re_eq (fun _ => "") (fun _ => "") C07_kw0 C07_cr0 p d)))
+  | _ => None
+  end.
+Definition C07_doc_star : node :=
+  NMap C07_i0 [ (C07_leaf "a*", NLeaf (mkinfo 1 None false None) (PStr "hit"));
+                (C07_leaf "ab", NLeaf (mkinfo 2 None false None) (PStr "x")) ].
+Definition C07_doc_anchored : node :=
+  NSeq C07_i0 [ NLeaf (mkinfo 1 (Some "x") true None) (PStr "hit"); NLeaf (mkinfo 2 (Some "x") true None) (PStr "other") ].
+
+Theorem C07_resolves_text_refuted :
+  (omap (map (fun h => (h_path h, h_loc h))) (search_doc C07_lit0 C07_re0 [] C07_tm_hit Dot C07_o_v C07_doc_star)
+     = Ok [("a*", [RKey (PStr "a*")])]
+   /\ pb_safe Dot C07_doc_star [RKey (PStr "a*")] = false
+   /\ C07_requery Dot C07_doc_star "a*" = Some [1; 2]%N)
+  /\ (omap (map (fun h => (h_path h, h_loc h))) (search_doc C07_lit0 C07_re0 [] C07_tm_hit Dot C07_o_v C07_doc_anchored)
+        = Ok [("[&x]", [RIdx 0])]
+      /\ seq_plain C07_doc_anchored = false
+      /\ pb_safe Dot C07_doc_anchored [RIdx 0] = true
+      /\ build_path Dot [RIdx 0] = "[0]"
+      /\ C07_requery Dot C07_doc_anchored "[&x]" = Some [1; 2]%N).
+Proof. vm_compute. repeat split; reflexivity. Qed.
